@@ -906,6 +906,8 @@ def run(tier: str, seed: int, replay=None) -> int:
         dist["nesting"][nesting(c["prog"])] = dist["nesting"].get(nesting(c["prog"]), 0) + 1
         dist["world_size"][len(c["world"])] = dist["world_size"].get(len(c["world"]), 0) + 1
         dist["trivial"] += 0 if nontrivial else 1
+        dist["two_blocks"] = dist.get("two_blocks", 0) + (1 if c.get("stages") else 0)
+        dist["evaluated_between_the_blocks"] = dist.get("evaluated_between_the_blocks", 0) + (1 if c.get("mid_evals") else 0)
         dist["spec_rows"] += len(s)
 
         def count_kinds(r):
